@@ -129,7 +129,7 @@ func (e *Engine) targetsFor(prop string) (funcs []string, lemmas []*LemmaDef) {
 				continue
 			}
 		}
-		use := hasProp(ct.Props, prop) || hasProp(strings.Fields(strings.ReplaceAll(ct.Attrs["safety"], ",", " ")), prop) || strings.Contains(ct.Attrs["hooked"], "@"+prop+" ") || strings.Contains(ct.Attrs["own-var"], "@"+prop+" ")
+		use := hasProp(ct.Props, prop) || hasProp(strings.Fields(strings.ReplaceAll(ct.Attrs["safety"], ",", " ")), prop) || strings.Contains(ct.Attrs["hooked"], "@"+prop+" ") || strings.Contains(ct.Attrs["own-var"], "@"+prop+" ") || strings.Contains(ct.Attrs["cancellable"], "@"+prop+" ")
 		for _, cl := range ct.Ensures {
 			if hasProp(cl.Props, prop) {
 				use = true
